@@ -383,6 +383,40 @@ pub fn run_c07(rep: &mut Report, thorough: bool) {
             &mut rep.sink,
         );
         rep.stage("segment-fields", "one accepted data segment x advertised window 0..399 and 5 larger x 5 urgent pointers x 6 extra flag sets (URG, ECE, CWR, NS) x reserved bits {0, 5}: judged by the reference connection model", total, t0);
+        // every flag word x payload x acknowledgement number, on a flow without state and on a
+        // validated one: which segments are answered (and with what) is the reference's decision for
+        // ALL 512 flag words - a bare or payload-carrying ACK, RST|ACK, URG|ACK without PSH never is
+        let t0 = std::time::Instant::now();
+        let pls: [&[u8]; 3] = [b"", b"Z", HTTP_REQ];
+        let dims = [512u64, 3, 3, 2];
+        let total: u64 = dims.iter().product();
+        let opts = RunOpts::new("flags-payload-matrix").stateful().chunk(256).no_monitor();
+        let cfg = s.cfg.clone();
+        let cookies = s.cookies.clone();
+        engine::run(
+            &s.cfg,
+            total,
+            &opts,
+            |i| {
+                let d = engine::unrank(i, &dims);
+                let a = [c, c.wrapping_sub(1), 0x01020304][d[2] as usize];
+                let mut cmds = Vec::new();
+                if d[3] == 1 {
+                    cmds.push(Cmd::Frame(f.tcp(1000, c, F_PSH | F_ACK, b"Z")));
+                }
+                cmds.push(Cmd::Frame(f.tcp(1001, a, d[0] as u16, pls[d[1] as usize])));
+                // and what a well-formed data segment gets afterwards
+                cmds.push(Cmd::Frame(f.tcp(2000, 0x0a0b0c0d, F_PSH | F_ACK, b"Y")));
+                cmds
+            },
+            |it: &Item, sk: &mut Sink| {
+                sk.count("frames", it.cmds.len() as u64);
+                let model = crate::model::Model::new();
+                engine::judge_item(&cfg, &model, &cookies, it, it.cmds.len(), "flags-payload-matrix", sk);
+            },
+            &mut rep.sink,
+        );
+        rep.stage("flags-payload-matrix", "all 512 TCP flag words x payload {none, 1 byte, complete request} x acknowledgement {cookie+1, cookie, unrelated} x {flow without state, validated flow}, followed by a data segment with an unrelated acknowledgement number: every frame judged by the reference connection model", total, t0);
     }
 }
 
@@ -636,6 +670,17 @@ pub fn run_c08(rep: &mut Report, thorough: bool) {
         crate::props::pairs::pair_histories(rep, &s.cfg, "pair-histories", &fr[..nmax]);
         if thorough {
             crate::props::pairs::triple_histories(rep, &s.cfg, "triple-histories", &fr[..fr.len().min(110)]);
+        }
+        // the responder's own replies fed back (no address lists, so that a frame addressed to the
+        // client's address is still for the responder)
+        for (tag, f) in s.flows.iter().take(2) {
+            for e in tcp_events(tag, f, s.cookies[&key_of(f)], true) {
+                fr.push(crate::props::pairs::pf(&e.name, e.frame));
+            }
+        }
+        crate::props::pairs::reflected_replies(rep, &Cfg::base(), "own-replies-fed-back", &fr);
+        if !s.cfg.self_ips.is_empty() || !s.cfg.deny_ips.is_empty() {
+            crate::props::pairs::reflected_replies(rep, &s.cfg, "own-replies-fed-back-lists", &fr);
         }
     }
     // (iv) collision stage
